@@ -1,3 +1,4 @@
+import numpy as np
 import strax
 from .plugin import Plugin
 
@@ -36,12 +37,15 @@ class OverlapWindowPlugin(Plugin):
 
     def _get_window_size(self):
         window_size = self.get_window_size()
-        if isinstance(window_size, (int, float)):
+        # Work with Python integers: floats cannot represent nanosecond times since the epoch
+        # exactly, and numpy integers can overflow in the arithmetic below.
+        if isinstance(window_size, (int, float, np.integer, np.floating)):
+            window_size = int(np.ceil(window_size))
             return window_size, window_size
         elif isinstance(window_size, (list, tuple)) and len(window_size) == 2:
             if window_size[0] < 0 or window_size[1] < 0:
                 raise ValueError("Window size elements must be non-negative")
-            return window_size
+            return int(np.ceil(window_size[0])), int(np.ceil(window_size[1]))
         else:
             raise ValueError(
                 "Window size must be an integer(float) or a tuple of two integer(float)s"
